@@ -1,6 +1,6 @@
 (* Proofs about the sliding-window replay detector model:
    refinement to "set of accepted numbers", exactly-once, window tolerance. *)
-From DtlsV Require Import Lib.Bytes Rec.Window.
+From DtlsV Require Import Lib.Bytes Rec.Window Rec.WindowRun.
 From Coq Require Import ZifyN ZifyNat ZifyBool.
 Open Scope N_scope.
 
@@ -286,4 +286,12 @@ Proof.
   rewrite app_nil_r in HI. destruct HI as (_ & _ & Hle & Hlat). split.
   - intros y Hy. apply Hle. now apply in_rev in Hy.
   - intro Hp. apply in_rev. now apply Hlat.
+Qed.
+
+Lemma eff_window_spec (W : nat) : (W <= eff_window W)%nat /\ (eff_window W mod 64 = 0)%nat.
+Proof.
+  unfold eff_window. split.
+  - pose proof (Nat.div_mod (W + 63) 64 ltac:(lia)) as H.
+    pose proof (Nat.mod_upper_bound (W + 63) 64 ltac:(lia)). lia.
+  - apply Nat.mod_mul. lia.
 Qed.
